@@ -1,10 +1,10 @@
 (* C13 - Dynamic addresses re-label the network without changing it.
-   Statements only; proofs in Proofs/RemapFacts.v.  valid_mapping (Model/Remap.v) is evaluated inside
+   Statements only; proofs in Proofs/RemapFacts.v, Proofs/RekeyFacts.v, Proofs/Equivariance.v.  valid_mapping (Model/Remap.v) is evaluated inside
    Coq on every re-labelling the implementation performs (props/c13.py); the theorems say what a valid
    mapping guarantees for the re-keyed world. *)
 From stdpp Require Import gmap.
 From Coq Require Import ZArith NArith.
-From NSG Require Import Model.World Model.Load Model.Remap Proofs.RemapFacts.
+From NSG Require Import Model.World Model.Load Model.Remap Proofs.RemapFacts Proofs.Equivariance.
 
 (* one-to-one on the hosts and on the networks of the world *)
 Theorem C13_one_to_one_ips : forall w m, valid_mapping w m = true ->
@@ -57,6 +57,57 @@ Example C13_nonvacuous :
   valid_mapping w m = true.
 Proof. vm_compute. reflexivity. Qed.
 
+(* "any action sequence translated through it produces the translated observations": every action, and by
+   induction every action sequence, commutes with a re-labelling that is one-to-one on the addresses and networks
+   in play (and under which a scanned network keeps exactly its members): playing the translated actions on the
+   re-keyed world from the translated view gives the re-keyed world and the translated view *)
+Theorem C13_equivariant_step : forall (m : mapping) (D : gset ip) (DN : gset net) (w : world) (v : view) (a : gaction),
+  (forall x y, x ∈ D -> y ∈ D -> mip m x = mip m y -> x = y) ->
+  (forall x y, x ∈ DN -> y ∈ DN -> mnet m x = mnet m y -> x = y) ->
+  world_all_ips w ⊆ D -> dom (w_nets w) ⊆ DN -> view_ips v ⊆ D -> action_ips a ⊆ D -> scan_faithful m w a = true ->
+  step (rekey_world m w) (map_view m v) (map_action m a) =
+  (rekey_world m (fst (step w v a)), map_view m (snd (step w v a))).
+Proof. exact step_equivariant. Qed.
+
+Theorem C13_equivariant_play : forall (m : mapping) (D : gset ip) (DN : gset net) (acts : list gaction) (w : world) (v : view),
+  (forall x y, x ∈ D -> y ∈ D -> mip m x = mip m y -> x = y) ->
+  (forall x y, x ∈ DN -> y ∈ DN -> mnet m x = mnet m y -> x = y) ->
+  world_all_ips w ⊆ D -> dom (w_nets w) ⊆ DN -> view_ips v ⊆ D ->
+  (forall a, a ∈ acts -> action_ips a ⊆ D /\ scan_faithful m w a = true) ->
+  play (rekey_world m w) (map_view m v) (map (map_action m) acts) =
+  (rekey_world m (fst (play w v acts)), map_view m (snd (play w v acts))).
+Proof. exact play_equivariant. Qed.
+
+(* the same with decidable hypotheses; `equiv_ready` is evaluated inside Coq on the re-labellings the implementation
+   makes and the action sequences played after them (C13 correspondence) *)
+Theorem C13_equivariant_ready : forall (m : mapping) (w : world) (v : view) (acts : list gaction),
+  equiv_ready m w v acts = true ->
+  play (rekey_world m w) (map_view m v) (map (map_action m) acts) =
+  (rekey_world m (fst (play w v acts)), map_view m (snd (play w v acts))).
+Proof. exact play_equivariant_ready. Qed.
+
+(* non-vacuity: on the two-network world a scan, a service discovery and an exploit are played; the hypotheses hold,
+   the played sequence changes the view, and both sides agree (computed) *)
+Example C13_equivariant_nonvacuous :
+  let s1 : svc := (1%N, 2%N, 3%N, false) in
+  let w := {| w_ip2host := {[3232235778%N := 7%N; 3232236034%N := 8%N]};
+              w_nets := {[(3232235776%N, 24%N) := {[3232235778%N]}; (3232236032%N, 24%N) := {[3232236034%N]}]};
+              w_services := {[8%N := {[s1]}]}; w_data := ∅;
+              w_fw := {[3232235778%N := {[3232235778%N; 3232236034%N]}; 3232236034%N := {[3232235778%N; 3232236034%N]}]};
+              w_blocks := ∅; w_data0 := ∅;
+              w_fw0 := {[3232235778%N := {[3232235778%N; 3232236034%N]}; 3232236034%N := {[3232235778%N; 3232236034%N]}]} |} in
+  let m := {| m_ip := {[3232235778%N := 167772419%N; 3232236034%N := 167772677%N]};
+              m_net := {[(3232235776%N, 24%N) := (167772416%N, 24%N); (3232236032%N, 24%N) := (167772672%N, 24%N)]} |} in
+  let v := {| v_ctrl := {[3232235778%N]}; v_hosts := {[3232235778%N]}; v_svcs := ∅; v_data := ∅;
+              v_nets := {[(3232235776%N, 24%N)]}; v_blocks := ∅ |} in
+  let acts := [AScan 3232235778%N (3232236032%N, 24%N); AFindServices 3232235778%N 3232236034%N;
+               AExploit 3232235778%N 3232236034%N s1; ABlock 3232236034%N 3232236034%N 3232235778%N] in
+  equiv_ready m w v acts = true /\
+  bool_decide (3232236034%N ∈ v_ctrl (snd (play w v acts))) = true /\ bool_decide (3232236034%N ∈ v_ctrl v) = false /\
+  bool_decide (167772677%N ∈ v_ctrl (snd (play (rekey_world m w) (map_view m v) (map (map_action m) acts)))) = true /\
+  bool_decide (3232235778%N ∈ get (w_fw (fst (play w v acts))) 3232236034%N) = false.
+Proof. vm_compute. repeat split; reflexivity. Qed.
+
 Print Assumptions C13_one_to_one_ips.
 Print Assumptions C13_one_to_one_nets.
 Print Assumptions C13_shape.
@@ -66,3 +117,6 @@ Print Assumptions C13_services_data.
 Print Assumptions C13_membership.
 Print Assumptions C13_connections.
 Print Assumptions C13_connections_both_ways.
+Print Assumptions C13_equivariant_step.
+Print Assumptions C13_equivariant_play.
+Print Assumptions C13_equivariant_ready.
